@@ -48,6 +48,7 @@ type Sched struct {
 	Namer   func(label, key string, s *Sched) (kind string, name string)
 	Events  []Event
 	Aborted bool
+	KeepLabel string // with Aborted: goroutines still park at this label
 }
 
 func NewSched() *Sched {
@@ -92,7 +93,7 @@ func (s *Sched) TakeEvents() []Event {
 func (s *Sched) Park(label, key string) {
 	g := goid()
 	s.mu.Lock()
-	if s.Aborted {
+	if s.Aborted && (s.KeepLabel == "" || label != s.KeepLabel) {
 		s.mu.Unlock()
 		return
 	}
@@ -172,10 +173,29 @@ func (s *Sched) ByName(name string) *Thread {
 	return nil
 }
 
+// AbortKeep releases everything that is parked except goroutines at label keep (application code that
+// has not returned yet) and makes later parks at other labels no-ops
+func (s *Sched) AbortKeep(keep string) {
+	s.mu.Lock()
+	s.Aborted = true
+	s.KeepLabel = keep
+	var parked []*Thread
+	for _, th := range s.Threads {
+		if th.Parked && th.Label != keep {
+			parked = append(parked, th)
+		}
+	}
+	s.mu.Unlock()
+	for _, th := range parked {
+		th.resume <- struct{}{}
+	}
+}
+
 // Abort releases everything that is parked and makes later parks no-ops
 func (s *Sched) Abort() {
 	s.mu.Lock()
 	s.Aborted = true
+	s.KeepLabel = ""
 	var parked []*Thread
 	for _, th := range s.Threads {
 		if th.Parked {
